@@ -63,18 +63,46 @@ private:
     Log *mLog; int mKind; int mId;
 };
 
-Handler *build(const Val &n, Log *log, QObject *parent)
+// The tree can be put together in several orders, none of which may matter: the order is taken from the handler's id.
+//   bit 0: sub-handlers are registered before the redirects (else after)
+//   bit 1: a child is attached to its parent while still empty and is populated afterwards (else populated first)
+//   bit 2: the middleware is attached last (else first)
+Handler *makeHandler(const Val &n, Log *log, QObject *parent)
 {
     int pk = int(n.at(3).asInt()), pid = int(n.at(4).asInt());
-    Handler *h = pk == 0 ? new Handler(parent) : new InstrHandler(log, pk, pid, parent);
-    QMap<int, InstrMiddleware *> byId;      // an id that occurs again in the same handler is the same object attached again
-    for (auto &m : n.at(0).l) {
-        int id = int(m.at(0).asInt());
-        if (!byId.contains(id)) byId.insert(id, new InstrMiddleware(log, id, int(m.at(1).asInt()), h));
-        h->addMiddleware(byId.value(id));
-    }
-    for (auto &r : n.at(1).l) h->addRedirect(QRegExp(QString::fromUtf8(r.at(0).asBytes())), QString::fromUtf8(r.at(1).asBytes()));
-    for (auto &s : n.at(2).l) h->addSubHandler(QRegExp(QString::fromUtf8(s.at(0).asBytes())), build(s.at(1), log, h));
+    return pk == 0 ? new Handler(parent) : static_cast<Handler *>(new InstrHandler(log, pk, pid, parent));
+}
+void populate(Handler *h, const Val &n, Log *log)
+{
+    int pid = int(n.at(4).asInt());
+    auto addMiddleware = [&]() {
+        QMap<int, InstrMiddleware *> byId;      // an id that occurs again in the same handler is the same object attached again
+        for (auto &m : n.at(0).l) {
+            int id = int(m.at(0).asInt());
+            if (!byId.contains(id)) byId.insert(id, new InstrMiddleware(log, id, int(m.at(1).asInt()), h));
+            h->addMiddleware(byId.value(id));
+        }
+    };
+    auto addRedirects = [&]() {
+        for (auto &r : n.at(1).l) h->addRedirect(QRegExp(QString::fromUtf8(r.at(0).asBytes())), QString::fromUtf8(r.at(1).asBytes()));
+    };
+    auto addSubs = [&]() {
+        for (auto &s : n.at(2).l) {
+            Handler *child = makeHandler(s.at(1), log, h);
+            bool attachFirst = (int(s.at(1).at(4).asInt()) & 2) != 0;
+            if (attachFirst) h->addSubHandler(QRegExp(QString::fromUtf8(s.at(0).asBytes())), child);
+            populate(child, s.at(1), log);
+            if (!attachFirst) h->addSubHandler(QRegExp(QString::fromUtf8(s.at(0).asBytes())), child);
+        }
+    };
+    if (!(pid & 4)) addMiddleware();
+    if (pid & 1) { addSubs(); addRedirects(); } else { addRedirects(); addSubs(); }
+    if (pid & 4) addMiddleware();
+}
+Handler *build(const Val &n, Log *log, QObject *parent)
+{
+    Handler *h = makeHandler(n, log, parent);
+    populate(h, n, log);
     return h;
 }
 }
